@@ -398,6 +398,35 @@ def o15(W, ob):
     ob.require_count(n, 5, 'bincode serialisation sites')
 
 
+
+def o16(W, ob):
+    """every field of every wire struct travels: the serde-derived impls of the structs in network::messages write and read as many fields as the structs have"""
+    structs = sorted(len(a['variants'][0]['fields']) for p2, a in W.fx.adts.items()
+                     if 'network::messages::' in p2 and '::_::' not in p2 and not a.get('is_enum') and a.get('variants') and
+                     p2.split('::')[-1] not in ('BytesDebug',))
+    ser, de = [], []
+    for f in W.fx.fn_list:
+        if f.kind == 'closure' or 'promoted' in f.path or 'messages' not in f.path:
+            continue
+        if f.path.endswith('::serialize'):
+            n = len([t for t in f.calls() if 'serialize_field' in (t.callee.best or '')])
+            if n or any('serialize_struct' in (t.callee.best or '') for t in f.calls()):
+                ser.append(n)
+        if f.path.endswith('::visit_seq'):
+            n = len([t for t in f.calls() if 'next_element' in (t.callee.best or '')])
+            if n:
+                de.append(n)
+    ser.sort()
+    de.sort()
+    structs_named = [x for x in structs if x > 0]
+    ob.require_count(len(structs_named), 9, 'wire structs in network::messages')
+    ob.check(ser == structs_named, 'wire|every-field-serialised', 'the %d wire structs serialise all their fields (%s)' % (len(structs_named), structs_named),
+             'the derived Serialize impls of the wire structs write %s fields, the structs have %s: a field is skipped (e.g. #[serde(skip)]) and the receiver rebuilds it as '
+             'Default::default()' % (ser, structs_named), None)
+    ob.check(de == structs_named, 'wire|every-field-deserialised', 'the wire structs deserialise all their fields',
+             'the derived Deserialize impls of the wire structs read %s fields, the structs have %s: a field that travels is ignored (or never expected) by the reader' % (de, structs_named), None)
+
+
 from . import initial
 
 from . import casts
@@ -424,6 +453,7 @@ OBLIGATIONS = [
     ('C03.H', 'helpers the rules above rely on', 'the bodies of the helpers named by this property\'s rules compute what the rules assume (prev_pos, add_input, player_input, confirmed_input); see rules/helpers.py', helpers.bundle('prev_pos', 'add_input', 'player_input', 'confirmed_input')),
     ('C03.O14', 'received bytes decode to what was sent (= C14.O4)', 'see C14.O4: the reader of the run-length layer uses the writer\'s table', _c14_o4, {'deps': True}),
     ('C03.O15', 'wire configuration: reader = writer', 'every bincode site of the crate belongs to one of the two wires (player inputs in InputBytes, whole messages in the UDP socket); within a wire the sites that write (serialize, serialize_into, serialized_size) and the sites that read (deserialize) use the same integer encoding and byte order (top-level bincode functions = fixed-width little-endian; an Options chain is read from its with_* calls): a Confirmed input is the bytes the remote serialised.', o15),
+    ('C03.O16', 'every field of every wire struct travels', 'the serde-derived Serialize / Deserialize impls of the structs in network::messages write / read exactly as many fields as the structs have (multiset comparison, read from the MIR of the derived impls): a #[serde(skip)] or a default-on-missing field makes an acknowledgement, a frame number or a checksum arrive as Default::default().', o16),
     ('C03.I', 'initial state', 'every constructor gives the fields this property\'s rules interpret (NULL_FRAME = none / nothing yet, 0 = first frame, latches open, typestate start) the value listed in tables/initial_state.json; every field compared with NULL_FRAME anywhere is listed; see rules/initial.py', initial.rule_for('C03')),
     ('C03.C', 'lossy integer casts', 'every sign-changing cast (signed -> unsigned; NULL_FRAME is -1) and every narrowing cast to < 32 bits or from 128 bits in the crate is in range by a dominating guard, by the shape of its operand, or listed with a reason in tables/casts.json; see rules/casts.py', casts.rule),
     ('C03.M', 'must-call floor', 'the calls listed for this property in tables/must_call.json are made on every path from the entry of their function to a normal return (interprocedural must-call): a new early return, fast path or extra condition in front of one of them is reported; see rules/mustcall.py', mustcall.rule_for('C03')),
@@ -431,4 +461,6 @@ OBLIGATIONS = [
     ('C03.V', 'no unreviewed condition in the pinned helpers', 'for each helper whose body this property\'s rules pin (tables/condition_terms.json), the terms its path conditions are built from (fields, parameters, call results -- no constants, operators or local names) are a subset of the reviewed vocabulary: one more `if` in front of a pinned result (a lock that may time out, "only while an endpoint is running") is reported; see rules/vocab.py', vocab.rule_for('C03')),
     ('C03.S', 'state inventory', 'every field of the structs this property\'s rules read (tables/state.json) is known, and is written only by its reviewed writers (or helpers only they call): a new field is new state across calls -- a cache, a flag, a stored deadline -- that nothing has shown to stay in step; a new writer is a second place that resets, re-arms or moves something; see rules/inventory.py', inventory.state_rule_for('C03')),
     ('C03.K', 'call inventory', 'every reviewed call of a function that writes state (tables/call_edges.json, callers in the structs this property\'s rules read) is still made, directly or through helpers: a call deleted as redundant is reported; see rules/inventory.py', inventory.call_rule_for('C03')),
+    ('C03.A', 'expression inventory', 'every arithmetic expression handed to a call or stored in a field, and what every closure given to an iterator adaptor / collection method returns, is one of the reviewed expressions of its function (tables/expressions.json; linear / guard normal forms, no local names): a changed literal, operator, operand order, factor, predicate or sort key is reported; see rules/inventory.py', inventory.expr_rule_for('C03')),
+    ('C03.P', 'trait-impl inventory', 'each (type, trait) pair among PartialEq / Eq / Hash / Ord / Clone / Default / From / Deref / InputPredictor is derived or hand-written as listed in tables/impls.json: a derive replaced by a hand-written impl (equality by address only, a hash that ignores a field) changes which map keys collide and which inputs match with every call site unchanged; see rules/inventory.py', inventory.impl_rule),
 ]
